@@ -7,7 +7,7 @@ sys.path.insert(0, os.path.join(V.ROOT, "harness", "py", "enc"))
 
 LEVEL = "model_checking"
 ASSUMPTIONS = ["well-formed archives: each directory entry is followed contiguously by its contents",
-               "owner ids are not checked (chown fails for the unprivileged user and lhasa ignores that); time stamps of symbolic links, of "
+               "time stamps of symbolic links, of "
                "directories that receive a deferred link, and of entries whose stamp is 0 are not checked, as in the statement",
                "umask 022; TZ=UTC",
                "compressed members come from independent encoders (harness/py/enc) whose streams the real decoders expand exactly",
@@ -57,11 +57,22 @@ def macbinary(name, data, mtime):
     return body + b"\0" * pad
 
 
+OWNERS = [(0, 0), (1, 1), (1000, 100), (65534, 65534), (65535, 65535), (12345, 54321), (65534, 7), (0, 65534), (7, 0)]
+
+
 class Tree:
-    def __init__(self, rng, tier):
+    def __init__(self, rng, tier, owners=False):
         self.rng, self.members, self.items, self.n = rng, [], [], 0
         self.tier = tier
         self.has_deferred = set()
+        self.owners = owners      # some entries record owner ids (extended header 0x51)
+
+    def own(self):
+        """appends an owner header to the member just added, sometimes"""
+        if self.owners and self.rng.random() < 0.6:
+            u, g = self.rng.choice(OWNERS)
+            self.members[-1].exts.append(arc.x_uidgid(u, g))
+            self.items[-1]["own"] = [u, g]
 
     def name(self):
         self.n += 1
@@ -93,6 +104,7 @@ class Tree:
         m = arc.unix_file(path, data, level=lvl, method=method.encode(), payload=payload, perms=perms, time=mt)
         self.members.append(m)
         self.items.append({"p": path, "ty": "file", "data": data, "mtime": mt, "mode": (perms & 0o7777) if perms is not None else 0o600})
+        self.own()
 
     def add_link(self, d, siblings):
         r = self.rng
@@ -101,6 +113,7 @@ class Tree:
             tgt = r.choice([b"somewhere", b"a/b/c", nm + b"x", b"."] + [s.split(b"/")[-1] for s in siblings[:3]])
             self.members.append(arc.unix_symlink(d + nm, tgt, level=r.choice([1, 2])))
             self.items.append({"p": d + nm, "ty": "link", "t": tgt})
+            self.own()
         else:
             tgt = r.choice([b"../elsewhere", b"/nonexistent/abs", b"x/../../y"])
             self.members.append(arc.unix_symlink(d + nm, tgt, level=2))
@@ -117,6 +130,7 @@ class Tree:
         self.members.append(arc.unix_dir(path, level=r.choice([1, 2, 3]), perms=perms, time=mt))
         it = {"p": path, "ty": "dir", "mtime": mt, "mode": (perms & 0o7777) if perms is not None else 0o755, "hp": perms is not None}
         self.items.append(it)
+        self.own()
         self.fill(path + b"/", depth + 1)
         return it
 
@@ -167,13 +181,13 @@ def expect_event(t, root, tree, opts):
     return {"e": "Expect", "items": items, "tree": tree}
 
 
-def model_event(t, tree, opt, filters, pre, answers, code=None):
+def model_event(t, tree, opt, filters, pre, answers, code=None, who=None):
     """ExpectModel event: the generator only says what the archive is meant to contain; TreeModel.tla computes the tree"""
     items = []
     for it in t.items:
         p = it["p"]
         e = {"pb": list(p + (b"/" if it["ty"] == "dir" else b"")), "comps": EG.loc_of(p), "ty": it["ty"], "size": 0, "crc": 0,
-             "mtime": [-1], "mode": -1, "traw": "", "hp": bool(it.get("hp", True))}
+             "mtime": [-1], "mode": -1, "traw": "", "hp": bool(it.get("hp", True)), "own": it.get("own", [-1])}
         if it["ty"] == "file":
             e.update(size=len(it["data"]), crc=arc.crc16(it["data"]), mode=it["mode"])
             if it["mtime"]:
@@ -190,7 +204,8 @@ def model_event(t, tree, opt, filters, pre, answers, code=None):
         if o.startswith("w="):
             wd = EG.loc_of(o[2:])
     return {"e": "ExpectModel", "items": items, "filters": [list(f) for f in filters],
-            "opts": {"flat": "i" in opt, "wd": wd, "policy": "all" if any(o == "f" or o.startswith("q") for o in opt) else "prompt"},
+            "opts": {"flat": "i" in opt, "wd": wd, "policy": "all" if any(o == "f" or o.startswith("q") for o in opt) else "prompt",
+                     **({"me": list(who[0]), "priv": bool(who[1])} if who else {})},
             "pre": [{"comps": EG.loc_of(rel), "ty": kind, "size": len(val or b"") if kind == "file" else 0, "crc": arc.crc16(val) if kind == "file" else 0, "mode": md,
                      "traw": val.hex() if kind == "link" else "",
                      "live": kind != "link" or any(r2 == os.path.normpath(os.path.join(os.path.dirname(rel), val.decode("latin1"))) for (r2, k2, v2, m2) in pre)}
@@ -275,7 +290,7 @@ def policy_pass(rng, sc, tier, ev):
     n = 45 if tier == "quick" else 600
     jobs, meta = [], []
     for i in range(n):
-        t = Tree(random.Random(rng.getrandbits(32)), tier)
+        t = Tree(random.Random(rng.getrandbits(32)), tier, owners=(i % 2 == 0))
         t.fill(b"", 0)
         pol = ("plain", "eod", "eof")[i % 3]
         rd = os.path.join(sc, "pol_%d" % i)
@@ -298,7 +313,7 @@ def policy_pass(rng, sc, tier, ev):
         with open(tr, "w") as f:
             for (t, pol, xd) in meta[k::nsh]:
                 tree = EG.walk_tree(xd)
-                e = model_event(t, tree, ["f"], [], [], b"")
+                e = model_event(t, tree, ["f"], [], [], b"", who=((os.geteuid(), os.getegid()), os.geteuid() == 0))
                 if pol == "plain":
                     parents = {it["p"] for it in t.items if it["ty"] == "dir" and any(o["p"].startswith(it["p"] + b"/") for o in t.items)}
                     for it, x in zip(t.items, e["items"]):
@@ -318,6 +333,86 @@ def policy_pass(rng, sc, tier, ev):
             except OSError:
                 pass
     ev.set("library_policy_extractions", len(meta))
+    return out
+
+
+def owner_pass(rng, sc, tier, ev):
+    """archives that record owner ids, extracted by the tool as a privileged user (files and directories are handed to the recorded ids) and
+    as an unprivileged one (the system refuses, the tool carries on): the owners in the tree left behind must be TreeModel's (no strace here:
+    only the final tree is compared)"""
+    lha = V.lha_binary("plain")
+    amroot = os.geteuid() == 0
+    n = 64 if tier == "quick" else 900
+    cases = []
+    for i in range(n):
+        t = Tree(random.Random(rng.getrandbits(32)), tier, owners=True)
+        t.fill(b"", 0)
+        opt = rng.choice([["f"], ["f"], ["q1"], [], ["i", "f"], ["f", "w=o"], ["q2", "w=a/b"]])
+        cases.append((i, t, opt, model_case(rng, t, opt)))
+
+    def one(i):
+        _, t, opt, (filters, pre, stdin, answers) = cases[i]
+        priv = amroot and i % 3 != 0
+        rd = os.path.join(sc, "own_%d" % i)
+        root = os.path.join(rd, "root")
+        os.makedirs(root); os.chmod(rd, 0o755)
+        a = os.path.join(rd, "a.lzh")
+        open(a, "wb").write(arc.archive(t.members))
+        for (rel, kind, val, md) in pre:
+            p = os.path.join(root, rel)
+            os.makedirs(os.path.dirname(p), exist_ok=True)
+            if kind == "dir":
+                os.makedirs(p, exist_ok=True); os.chmod(p, md)
+            elif kind == "file":
+                open(p, "wb").write(val); os.chmod(p, md)
+            else:
+                os.symlink(val, p)
+        cmd = []
+        me = (os.geteuid(), os.getegid())
+        if amroot and not priv:
+            me = (EG.UNPRIV, EG.UNPRIV)
+            for dp, dns, fns in os.walk(rd):
+                os.lchown(dp, *me)
+                for x in fns + dns:
+                    os.lchown(os.path.join(dp, x), *me)
+            cmd = ["setpriv", "--reuid=%d" % me[0], "--regid=%d" % me[1], "--clear-groups"]
+        args = ("x" if i % 4 else "e") + "".join(o for o in sorted(opt, key=lambda o: o.startswith("w=")))
+        reset = {"e": "Reset", "cwd": EG.loc_of(root), "root": EG.loc_of(root), "pre": [], "mode": "extract", "case": "owners-%d-%s" % (i, "priv" if priv else "unpriv")}
+        try:
+            p = V.run_bounded(cmd + [lha, args, a] + [bytes(f) for f in filters], capture_output=True, cwd=root, env=V.run_env(), input=stdin, timeout=120, cpu=30, fsize=64 << 20)
+        except subprocess.TimeoutExpired:
+            p = subprocess.CompletedProcess([], -9, b"", b"")
+        if p.returncode not in (0, 1, 255):
+            shutil.rmtree(rd, ignore_errors=True)
+            return [reset, {"e": "DidNotReturn", "code": p.returncode, "typed": list(stdin), "stderr_tail": p.stderr.decode(errors="replace")[-200:]}]
+        tree = EG.walk_tree(root)
+        e = model_event(t, tree, opt, filters, pre, answers, code=p.returncode, who=(me, priv))
+        for dp, dns, fns in os.walk(root):
+            try:
+                os.chmod(dp, 0o700)
+            except OSError:
+                pass
+        shutil.rmtree(rd, ignore_errors=True)
+        return [reset, e]
+    with cf.ThreadPoolExecutor(max_workers=V.NCPU) as ex:
+        evs = list(ex.map(one, range(n)))
+    out = []
+    nsh = V.NCPU
+    for k in range(nsh):
+        tr = os.path.join(sc, "own_expect_%d.ndjson" % k)
+        sub = evs[k::nsh]
+        with open(tr, "w") as f:
+            for pair in sub:
+                for e in pair:
+                    f.write(json.dumps(e, separators=(",", ":")) + "\n")
+
+        class P: returncode = 0; stderr = b""
+        if sub:
+            out.append((tr, tr, len(sub), P()))
+    ev.set("extractions_with_recorded_owners", n)
+    ev.set("extractions_as_privileged_user", sum(1 for i in range(n) if amroot and i % 3 != 0))
+    for (i, t, opt, mc) in cases:
+        ev.cls(("owners", tuple(opt), amroot and i % 3 != 0))
     return out
 
 
@@ -449,6 +544,7 @@ def run(tier, seed, ev):
         results = [r for r in ex.map(one, range(V.NCPU)) if r[2] > 0]
     results += policy_pass(rng, sc, tier, ev)
     results += prompt_pass(rng, sc, tier, ev)
+    results += owner_pass(random.Random(seed ^ 0x0DD), sc, tier, ev)
     viols, good = TR.validate_all("Trace_Extract", "Trace_Extract", results, ev, "C06", xmx="4g")
     # members from MacLHA archives: envelope recognition, what is handed out, verdict (MacBinary.tla)
     import maccommon
